@@ -225,6 +225,52 @@ pub fn run(mut run: Run) -> i32 {
             }
         }
     });
+    // three-member multipolygons: every ordered triple over a ring alphabet that includes an invalid (bow-tie) member; every reported error must name
+    // members (by their real positions) that have the reported defect, and validity is the conjunction over the members and the pairs
+    {
+        let mut alpha: Vec<(Vec<IP>, bool)> = rings(3, 4).into_iter().step_by(if quick { 8 } else { 3 }).map(|r| (r, true)).collect();
+        alpha.push((vec![(0, 0), (2, 2), (2, 0), (0, 2)], false)); // bow-tie
+        alpha.push((vec![(0, 0), (1, 0), (2, 0)], false)); // flat
+        let na = alpha.len();
+        run.stage("multipolygon-triples", na * na * na, |idx, acc| {
+            let t = [&alpha[idx / (na * na)], &alpha[(idx / na) % na], &alpha[idx % na]];
+            let ps: Vec<Poly> = t.iter().map(|(r, _)| Poly { shell: r.clone(), holes: vec![] }).collect();
+            let mp = MultiPolygon(ps.iter().map(poly).collect::<Vec<_>>());
+            // pairwise relation between the valid members
+            let rel = |i: usize, j: usize| -> Option<Matrix> { if t[i].1 && t[j].1 { Some(de9im(&AG::Polys(vec![ps[i].clone()]), &AG::Polys(vec![ps[j].clone()]))) } else { None } };
+            let all_members_valid = t.iter().all(|x| x.1);
+            let pairs_ok = [(0, 1), (0, 2), (1, 2)].iter().all(|&(i, j)| rel(i, j).map_or(true, |m| m[I][I] == -1 && m[B][B] <= 0));
+            acc.evals += 2;
+            acc.class(format!("mp3 members-valid{} pairs-ok{}", all_members_valid, pairs_ok));
+            acc.sample(idx, || json!({"multipolygon": format!("{:?}", mp), "members_valid": all_members_valid, "pairs_ok": pairs_ok}));
+            match guard(|| (mp.is_valid(), mp.validation_errors())) {
+                Err(e) => acc.viol("MultiPolygon(3 members)::is_valid panic".into(), idx, || json!({"multipolygon": format!("{:?}", mp), "panic": e})),
+                Ok((valid, errs)) => {
+                    let wit = || json!({"multipolygon": format!("{:?}", mp), "is_valid": valid, "errors": format!("{:?}", errs), "members_valid": t.iter().map(|x| x.1).collect::<Vec<_>>()});
+                    // pairs involving an invalid member have no defined relation: validity is only compared when every member is valid
+                    if all_members_valid && valid != pairs_ok {
+                        acc.viol(format!("MultiPolygon(3 members)::is_valid expected {} got {}", pairs_ok, valid), idx, wit);
+                    }
+                    if !all_members_valid && valid {
+                        acc.viol("MultiPolygon with an invalid member accepted".into(), idx, wit);
+                    }
+                    if errs.is_empty() != valid {
+                        acc.viol("MultiPolygon(3 members) validation_errors().is_empty() != is_valid".into(), idx, wit);
+                    }
+                    for e in &errs {
+                        let ok = match e {
+                            InvalidMultiPolygon::InvalidPolygon(i, _) => i.0 < 3 && !t[i.0].1,
+                            InvalidMultiPolygon::ElementsOverlaps(i, j) => i.0 < 3 && j.0 < 3 && i.0 != j.0 && rel(i.0, j.0).map_or(true, |m| m[I][I] == 2),
+                            InvalidMultiPolygon::ElementsTouchOnALine(i, j) => i.0 < 3 && j.0 < 3 && i.0 != j.0 && rel(i.0, j.0).map_or(true, |m| m[B][B] == 1),
+                        };
+                        if !ok {
+                            acc.viol(format!("MultiPolygon(3 members) reported error names members that do not have the defect: {}", format!("{:?}", e).split('(').next().unwrap()), idx, wit);
+                        }
+                    }
+                }
+            }
+        });
+    }
     // finiteness clause on every type
     let vals = [0.0, 1.0, f64::NAN, f64::INFINITY, f64::NEG_INFINITY];
     let nv = vals.len();
